@@ -121,6 +121,25 @@ pub fn c05_instances(tier: Tier) -> Vec<Instance> {
             let n = if thorough { 64 } else { 30 };
             (0..n).map(|i| if i % 3 == 0 { f_big(c, 252, 200) } else if i % 3 == 1 { f_mci(c, 8) } else { f_keepalive(c) }).collect()
         };
+        // frames LONGER than their packet needs (padding behind a keep-alive and behind a SMALL): what a
+        // frame announces, not what its parser consumes, decides where the next one starts
+        {
+            let pad_ka = { let mut v = vec![sz(c, 8), 3, 0, 0]; v.extend_from_slice(&[0; 4]); v };
+            let pad_small = { let mut v = f_small(c); v[0] = sz(c, 12); v.extend_from_slice(&[0; 4]); v };
+            let alpha2: Vec<(&str, Vec<u8>)> = vec![("padka", pad_ka), ("padsmall", pad_small), ("ping", f_tiny(c, 0, 3)), ("unk", f_unknown(c))];
+            for seq in sequences(&alpha2, 3) {
+                if !seq.iter().any(|x| x.0.starts_with("pad")) { continue; }
+                let label: Vec<&str> = seq.iter().map(|x| x.0).collect();
+                let frames: Vec<Vec<u8>> = seq.iter().map(|x| x.1.clone()).collect();
+                for imp in [Impl::Blocking, Impl::Tokio] {
+                    let mut i = Instance::new(&format!("padded#{}#{}#{}", if c { "compressed" } else { "uncompressed" }, label.join("+"), imp_name(imp)), imp, c, frames.clone());
+                    i.chunks = Chunks::All;
+                    i.fail_budget = 1;
+                    i.fail_kinds = vec![0];
+                    out.push(i);
+                }
+            }
+        }
         // every alignment of a frame boundary with the last byte of the receive allocation: a repeating
         // pattern of all short frame kinds (decodable, undecodable, over-running, keep-alive, one
         // 252-byte undecodable frame), shifted by k leading 4-byte frames, delivered as much at a time
@@ -597,6 +616,15 @@ pub fn c19_instances(tier: Tier) -> Vec<Instance> {
             (0..n).map(|i| if i % 3 == 0 { f_big(c, 252, 200) } else if i % 3 == 1 { f_mci(c, 8) } else { f_keepalive(c) }).collect()
         };
         out.extend(drop_write_instances(c, "drop-write"));
+        // a whole receive buffer of small packets from one transport read: 1530 packets come out of
+        // the buffer without the transport being asked; a suspension point of the future's own anywhere
+        // in that run is a point where the caller may drop it
+        let burst: Vec<Vec<u8>> = (0..1700usize).map(|j| if j % 7 == 3 { f_small(c) } else { f_tiny(c, (j % 250) as u8 + 1, 3) }).collect();
+        let mut i = Instance::new(&format!("cancel-burst#{cname}#tokio"), Impl::Tokio, c, burst);
+        i.chunks = Chunks::Fill(false);
+        i.allow_eof = false;
+        i.cancel_budget = 1;
+        out.push(i);
         let mut i = Instance::new(&format!("cancel-long#{cname}#tokio"), Impl::Tokio, c, long);
         i.chunks = Chunks::Boundary;
         i.allow_eof = false;
